@@ -58,6 +58,14 @@ struct View {
     return &currentKeystoneContext;
   }
 };
+// ReducedPublicationView: the two members that decide emptiness, over the fields its constructor computes
+struct RpvShell {
+  int keystoneInterval, firstKeystoneHeight, lastKeystoneHeight;
+  int firstKeystone() const { return firstKeystoneHeight; }
+  int lastKeystone() const { return lastKeystoneHeight; }
+#include "slices/rpv_size.inc"
+#include "slices/rpv_empty.inc"
+};
 #include "slices/comparePopScoreImpl.inc"
 }  // namespace internal
 }  // namespace altintegration
